@@ -34,16 +34,18 @@ def vals_src(vals):
 
 
 def is_tie(v, sig_or_places, kind):
+    """exact rounding ties, and near ties: the implementation (like std.jsonnet) scales the value in double arithmetic before
+    rounding, so a value within 1e-6 of a half of the last printed digit may go either way - not decided"""
     d = decimal.Decimal(abs(v))
     if d == 0:
         return False
+    big = decimal.Context(prec=1200)
     if kind == "f":
-        q = decimal.Decimal(1).scaleb(-sig_or_places)
-        big = decimal.Context(prec=1200)
-        return d.quantize(q, rounding=decimal.ROUND_HALF_UP, context=big) != d.quantize(q, rounding=decimal.ROUND_HALF_EVEN, context=big)
-    up = decimal.Context(prec=max(sig_or_places, 1), rounding=decimal.ROUND_HALF_UP).create_decimal(d)
-    ev = decimal.Context(prec=max(sig_or_places, 1), rounding=decimal.ROUND_HALF_EVEN).create_decimal(d)
-    return up != ev
+        x = big.scaleb(d, sig_or_places)
+    else:
+        x = big.scaleb(d, max(sig_or_places, 1) - 1 - d.adjusted())
+    frac = x - x.to_integral_value(rounding=decimal.ROUND_FLOOR, context=big)
+    return abs(frac - decimal.Decimal("0.5")) < decimal.Decimal("0.000001")
 
 
 def float_cases(thorough):
